@@ -176,6 +176,10 @@ class QScal:
     def norm2(self):
         return self.c[0] * self.c[0] + self.c[1] * self.c[1] + self.c[2] * self.c[2] + self.c[3] * self.c[3]
 
+    def norm(self):
+        """numpy-quaternion: q.norm() is the SQUARED modulus (Cayley norm); abs(q) / q.abs() is the modulus."""
+        return self.norm2()
+
     def inverse(self):
         n = self.norm2()
         return QScal(self.c[0] / n, -self.c[1] / n, -self.c[2] / n, -self.c[3] / n)
